@@ -62,6 +62,8 @@ def plan(tier, seed):
     shards.append(("structured", tier))
     for c in range(4):
         shards.append(("merge", c, 4))
+    for c in range(4):
+        shards.append(("pipeline", c, 4, tier))
     k = seed % len(shards)
     return shards[k:] + shards[:k]
 
@@ -358,13 +360,113 @@ def _run_merge(desc):
     return sh
 
 
+def _run_pipeline(desc):
+    """the whole route from a sparse scan to merged peaks (properties.pks_table_from_scan: label every frame, 2-D peak table, overlaps
+    of frames adjacent in omega, connected components, pk2dmerge): every ordered triple (quick: a quarter) of ten catalogue frames,
+    stored NOT in omega order, as the second row of a two-row dataset.  Given the per-frame labels (decided by C13), an independent
+    oracle builds the 2-D peaks, links peaks of omega-adjacent frames that share a pixel, takes components with its own union-find
+    and sums: the merged table must be that multiset of peaks."""
+    _, c, nch, tier = desc
+    import h5py, shutil
+    from ImageD11 import sparseframe as sf
+    import ImageD11.sinograms.properties as P
+    from vt.props import c13
+    import io, contextlib
+    sh = Shard()
+    wd = os.path.join(os.path.dirname(os.path.dirname(os.path.dirname(os.path.abspath(__file__)))), ".work", "c15_pipe_%d" % os.getpid())
+    os.makedirs(wd, exist_ok=True)
+    fr = []
+    for cells, order in c13.SCAN_FRAMES:
+        ii = np.array([q // 4 for q in cells], np.uint16); jj = np.array([q % 4 for q in cells], np.uint16)
+        fr.append((ii, jj, (10.0 * (np.array(order, np.float32) + 1)).astype(np.float32)))
+
+    class DS:
+        pass
+    ds = DS()
+    ds.scans = ["0.1", "1.1"]
+    ds.omega = np.array([[1.0, 2.0, 3.0], [20.0, 10.0, 30.0]])
+    ds.dty = np.array([[0.0, 0.0, 0.0], [1.5, 1.5, 1.5]])
+    try:
+        idx = 0
+        for trip in itertools.product(range(len(fr)), repeat=3):
+            idx += 1
+            if idx % nch != c or (tier == "quick" and (idx // nch) % 4 != 2):
+                continue
+            if all(len(fr[t][0]) == 0 for t in trip):
+                continue
+            fn = os.path.join(wd, "s.h5")
+            with h5py.File(fn, "w") as h:
+                for name in ds.scans:
+                    g = h.create_group(name)
+                    g.attrs["nframes"] = 3; g.attrs["shape0"] = 4; g.attrs["shape1"] = 4
+                    g["row"] = np.concatenate([fr[t][0] for t in trip]).astype(np.uint16)
+                    g["col"] = np.concatenate([fr[t][1] for t in trip]).astype(np.uint16)
+                    g["intensity"] = np.concatenate([fr[t][2] for t in trip]).astype(np.float32)
+                    g["nnz"] = np.array([len(fr[t][0]) for t in trip], np.int32)
+            case = {"kind": "pipeline", "frames": list(trip)}
+            with contextlib.redirect_stdout(io.StringIO()):
+                pk = P.pks_table_from_scan(fn, ds, 1)
+                got = pk.pk2dmerge(ds.omega, ds.dty)
+                ss = sf.SparseScan(fn, "1.1")
+                ss.lmlabel(countall=False)
+            # ---- oracle
+            peaks = []                      # (frame, label) -> [npix, sI, srI, scI, pixels]
+            index = {}
+            for j in range(3):
+                a, b = ss.ipt[j], ss.ipt[j + 1]
+                for l in sorted(set(ss.labels[a:b].tolist())):
+                    m = ss.labels[a:b] == l
+                    I = ss.intensity[a:b][m].astype(np.int64)
+                    index[(j, l)] = len(peaks)
+                    peaks.append([int(m.sum()), int(I.sum()), int((ss.row[a:b][m] * I).sum()), int((ss.col[a:b][m] * I).sum()),
+                                  set(zip(ss.row[a:b][m].tolist(), ss.col[a:b][m].tolist())), j])
+            parent = list(range(len(peaks)))
+
+            def find(x):
+                while parent[x] != x:
+                    parent[x] = parent[parent[x]]
+                    x = parent[x]
+                return x
+            order = np.argsort(ds.omega[1])
+            for q in range(1, 3):
+                ja, jb = int(order[q - 1]), int(order[q])
+                for (j1, l1), k1 in index.items():
+                    if j1 != ja:
+                        continue
+                    for (j2, l2), k2 in index.items():
+                        if j2 == jb and peaks[k1][4] & peaks[k2][4]:
+                            parent[find(k1)] = find(k2)
+            comps = {}
+            for k in range(len(peaks)):
+                comps.setdefault(find(k), []).append(k)
+            want = []
+            for mem in comps.values():
+                sI = sum(peaks[k][1] for k in mem)
+                want.append((sum(peaks[k][0] for k in mem), sI, len(mem), sum(peaks[k][2] for k in mem) / sI, sum(peaks[k][3] for k in mem) / sI,
+                             sum(ds.omega[1][peaks[k][5]] * peaks[k][1] for k in mem) / sI, 1.5))
+            have = [(int(got["Number_of_pixels"][k]), int(round(got["sum_intensity"][k])), int(got["npk2d"][k]), float(got["s_raw"][k]), float(got["f_raw"][k]),
+                     float(got["omega"][k]), float(got["dty"][k])) for k in range(len(got["spot3d_id"]))]
+            if len(have) != len(want) or any(np.abs(np.array(a) - np.array(b)).max() > 1e-9 for a, b in zip(sorted(have), sorted(want))):
+                sh.violation("pks_table_from_scan+pk2dmerge:merged-peaks-differ-from-components", case, {"got": sorted(have), "expected": sorted(want)})
+            elif pk.pk_props.shape[1] != len(peaks) or int(pk.pk_props[0].sum()) != sum(p_[0] for p_ in peaks) or int(pk.pk_props[1].sum()) != sum(p_[1] for p_ in peaks):
+                sh.violation("props:2d-peak-table-does-not-conserve-pixels-or-intensity", case, {})
+            sh.evaluations += 1
+            if len(want) < len(peaks) and len(want) >= 2:
+                sh.nontrivial += 1
+            sh.outcomes.add(("pipeline", min(len(want), 5)))
+        sh.sample(case, limit=1)
+    finally:
+        shutil.rmtree(wd, ignore_errors=True)
+    return sh
+
+
 def warm():
     _run_graphs(("graphs", 3, 1, 0, 1))
     _run_merge(("merge", 0, 7))
 
 
 def run_shard(desc):
-    return {"graphs": _run_graphs, "structured": _run_structured, "merge": _run_merge}[desc[0]](desc)
+    return {"graphs": _run_graphs, "structured": _run_structured, "merge": _run_merge, "pipeline": _run_pipeline}[desc[0]](desc)
 
 
 def finalize(merged, tier, seed):
@@ -378,6 +480,9 @@ def replay(case):
         gl = list(graphs(case["nodes"], max(1, len(el))))
         gi = gl.index(tuple(el))
         r = _run_graphs(("graphs", case["nodes"], max(1, len(el)), gi, len(gl)))
+    elif case["kind"] == "pipeline":
+        r = _run_pipeline(("pipeline", 0, 1, "thorough"))
+        r.violations = [v for v in r.violations if v["case"]["frames"] == case["frames"]]
     elif case["kind"] == "structured":
         r = _run_structured(("structured", "quick"))
     else:
